@@ -31,6 +31,9 @@ TRUSTED = base.TRUSTED
 SCORES = ['irmsd_fast', 'irmsd_sql', 'lrmsd_fast', 'lrmsd_sql', 'fnat_fast', 'fnat_sql', 'clashes', 'dockq', 'capri']
 RMSDS = ['irmsd_fast', 'irmsd_sql', 'lrmsd_fast', 'lrmsd_sql']
 KINDS = ['rigid_exact', 'rigid', 'columns', 'renumber', 'hydrogens', 'permute']
+ZONE_KINDS = ('rigid_exact', 'rigid', 'renumber')          # relations also run through zone files (written, then read back)
+ZONE_ROUTES = {'irmsd_fast_zone_written': 'irmsd_fast', 'irmsd_fast_zone_read': 'irmsd_fast', 'irmsd_sql_zone_read': 'irmsd_sql',
+               'lrmsd_fast_zone_written': 'lrmsd_fast', 'lrmsd_fast_zone_read': 'lrmsd_fast'}
 H_NAMES = [('H', 'H'), ('HA', 'H'), ('HB2', 'H'), ('HD21', 'H'), ('HG', 'H')]
 regenerated = [0]
 
@@ -42,8 +45,8 @@ regenerated = [0]
 _cache = {}
 
 
-def scores(ctx, dec_lines, ref_lines, enforce, cutoff=10.0):
-    key = hashlib.sha1(json.dumps([dec_lines, ref_lines, enforce, cutoff]).encode()).hexdigest()
+def scores(ctx, dec_lines, ref_lines, enforce, cutoff=10.0, zones=False):
+    key = hashlib.sha1(json.dumps([dec_lines, ref_lines, enforce, cutoff, zones]).encode()).hexdigest()
     if key in _cache:
         return _cache[key]
     df, rf = base.write_file(ctx, dec_lines, 'dec'), base.write_file(ctx, ref_lines, 'ref')
@@ -70,6 +73,17 @@ def scores(ctx, dec_lines, ref_lines, enforce, cutoff=10.0):
         o['capri'] = call(lambda: S.compute_CapriClass(o['fnat_fast'], o['lrmsd_fast'], o['irmsd_fast']), str)
     else:
         o['dockq'] = o['capri'] = 'ERR:undefined'
+    if zones:
+        # zone-file routes: every fast routine twice with the same fresh file name (absent -> written, present -> read),
+        # the SQL i-RMSD routine with that file
+        base._counter[0] += 1
+        izf = os.path.join(ctx.tmpdir(), 'm_%d.izone' % base._counter[0])
+        lzf = os.path.join(ctx.tmpdir(), 'm_%d.lzone' % base._counter[0])
+        o['irmsd_fast_zone_written'] = call(lambda: S.compute_irmsd_fast(izone=izf, cutoff=cutoff))
+        o['irmsd_fast_zone_read'] = call(lambda: S.compute_irmsd_fast(izone=izf, cutoff=cutoff))
+        o['irmsd_sql_zone_read'] = call(lambda: S.compute_irmsd_pdb2sql(izone=izf, cutoff=cutoff))
+        o['lrmsd_fast_zone_written'] = call(lambda: S.compute_lrmsd_fast(lzone=lzf))
+        o['lrmsd_fast_zone_read'] = call(lambda: S.compute_lrmsd_fast(lzone=lzf))
     # unrounded RMSDs (the same routines with the final rounding removed): used only to recognise rounding ties
     raw = {}
 
@@ -89,8 +103,9 @@ def scores(ctx, dec_lines, ref_lines, enforce, cutoff=10.0):
 
 def impl(ctx, c):
     cutoff = float(unrat(c['cutoff']))
-    return {'base': scores(ctx, c['base']['dec'], c['base']['ref'], c['enforce'], cutoff),
-            'var': scores(ctx, c['var']['dec'], c['var']['ref'], c['enforce'], cutoff),
+    zones = c['kind'] in ZONE_KINDS
+    return {'base': scores(ctx, c['base']['dec'], c['base']['ref'], c['enforce'], cutoff, zones),
+            'var': scores(ctx, c['var']['dec'], c['var']['ref'], c['enforce'], cutoff, zones),
             'rows': {s: {k: base.rows_of_lines(ctx, c[s][k]) for k in ('dec', 'ref')} for s in ('base', 'var')}}
 
 
@@ -157,6 +172,17 @@ def relation(kind, b, v):
     return base.merge(verdicts)
 
 
+def zone_routes(out):
+    """the value obtained through a zone file (written by the first call, read by the later ones) is the no-zone-file value"""
+    verdicts = [True]
+    for side in ('base', 'var'):
+        o = out[side]
+        for zr, plain in ZONE_ROUTES.items():
+            if zr in o and o[zr] != o[plain]:
+                verdicts.append(f'{zr} on the {side} pair: {o[zr]} but {plain} without a zone file gives {o[plain]}')
+    return base.merge(verdicts)
+
+
 def agree_spec(c, out, spec):
     if not spec.get('defined', True):
         return 'discard'
@@ -168,6 +194,7 @@ def agree_spec(c, out, spec):
             if spec[k] is False:
                 verdicts.append(f'Spec: the {k} object of the changed pair is not the image of the base pair\'s')
     verdicts.append(relation(c['kind'], out['base'], out['var']))
+    verdicts.append(zone_routes(out))
     return base.merge(verdicts)
 
 
@@ -337,8 +364,10 @@ def one_case(rng, kind, k):
     if kind == 'renumber':
         ref, dec = gen_base(rng)
         nums = [r['resSeq'] for r in ref.residues + dec.residues]
-        delta = rng.choice([d for d in (rng.randint(-999 - min(nums), 9999 - max(nums)), -999 - min(nums), 9999 - max(nums), 1, -1, 100) if
-                            -999 <= min(nums) + d and max(nums) + d <= 9999])
+        cand = [rng.randint(-999 - min(nums), 9999 - max(nums)), -60 - min(nums), -130 - min(nums), -(min(nums) + max(nums)) // 2,
+                -999 - min(nums), 9999 - max(nums), 1, -1, 100]      # entries 1-3 make (some of) the numbers negative
+        cand = [d for d in cand if -999 <= min(nums) + d and max(nums) + d <= 9999]
+        delta = cand[k % len(cand)]
         return mk(kind, 'delta=%d' % delta, dec.lines(), ref.lines(), cg.renumber(dec, delta).lines(), cg.renumber(ref, delta).lines(), enforce,
                   {'delta': delta})
     if kind == 'hydrogens':
@@ -354,6 +383,25 @@ def one_case(rng, kind, k):
     raise ValueError(kind)
 
 
+def tie_case(rng, k):
+    """equal atom counts in both chains of the reference (the "first chain if equal" rule decides which chain is fitted), chain
+    blocks written in an order that is not the sorted order of their identifiers, and the chain-block permutation of the
+    reference / of both files: the fitted chain must not depend on the order of the blocks"""
+    chains = [('B', 'A'), ('A', 'B'), ('X', 'A')][k % 3]
+    side = ['ref', 'both'][(k // 3) % 2]
+    for _ in range(200):
+        n = rng.randint(3, 7)
+        ref = base.equalize(cg.make_complex(rng, nA=n, nB=n, chains=chains, hydrogens=False, gap=rng.choice([3.5, 4.5, 6.0])))
+        dec = cg.jitter(rng, ref, rng.choice([0.5, 1.0]))
+        dec = cg.rigid_move(rng, dec, which=chains[1], shift=4.0)       # the two chains score very differently
+        if margins_ok(ref) and margins_ok(dec):
+            break
+        regenerated[0] += 1
+    vr = base.permuted_lines(rng, ref, 'chains')
+    vd = base.permuted_lines(rng, dec, 'chains') if side == 'both' else dec.lines()
+    return mk('permute', 'chains/tie/%s/%s%s' % (side, chains[0], chains[1]), dec.lines(), ref.lines(), vd, vr, k % 2 == 1)
+
+
 def cases(ctx):
     rng = ctx.rng
     out = []
@@ -362,12 +410,14 @@ def cases(ctx):
     for kind in KINDS:
         for k in range(per[kind]):
             out.append(one_case(rng, kind, k))
+    for k in range(ctx.scale(6, 36)):
+        out.append(tie_case(rng, k))
     return out
 
 
 def search_cases(ctx):
     rng = ctx.rng
-    return [one_case(rng, kind, k) for kind in KINDS for k in range(8)]
+    return [one_case(rng, kind, k) for kind in KINDS for k in range(9)] + [tie_case(rng, k) for k in range(12)]
 
 
 def extra_checks(ctx):
